@@ -1,8 +1,8 @@
 (* C08 -- Fit statistics and evidence follow their definitions on unmasked pixels only.
    Statements only; every proof is [exact <lemma of Proofs/C08.v>].
-   The [g_...] definitions (Gen/Gen_fit.v) are GENERATED from autoarray/fit/fit_util.py by py2v/gen_fit.py on every
-   run; C08_generated_fit_util_is_model re-checks that they are the model's fit_util layer, so that the theorems
-   below are theorems about what fit_util.py says now.
+   The [g_...] definitions (Gen/Gen_fit.v: the three likelihood / evidence composition formulas) are GENERATED from
+   autoarray/fit/fit_util.py by py2v/gen_fit.py on every run; C08_generated_composition_is_model re-checks that they
+   are the model's composition layer, so that C08_evidence_composition is about what fit_util.py says now.
 
    The statements are about the executable model of Model/C08.v (fit_util.py, fit_dataset.py,
    fit_imaging.py, evidence terms of inversion/abstract.py), which the correspondence run ties to /repo.
@@ -20,28 +20,13 @@ From Coq Require Import ZArith QArith Reals List Bool.
 From PAV Require Import Base.NumOps Base.Res Gen.Gen_fit Model.C08 Proofs.C08.
 Import ListNotations.
 
-(* ---- tie to the code: the definitions generated from fit_util.py are the model's fit_util layer
-        (np_pi = np.pi; the model's constant tp is 2 * np.pi), for every NumOps *)
-Theorem C08_generated_fit_util_is_model : forall (O : NumOps) (np_pi : T O),
-  let tp := mul O (ofZ O 2) np_pi in
-  (forall d m : list (T O), g_residual_map_from d m = residual_map_from d m) /\
-  (forall r n : list (T O), g_normalized_residual_map_from r n = normalized_residual_map_from r n) /\
-  (forall r n : list (T O), g_chi_squared_map_from r n = chi_squared_map_from r n) /\
-  (forall cm : list (T O), g_chi_squared_from cm = chi_squared_from cm) /\
-  (forall n : list (T O), g_noise_normalization_from np_pi n = noise_normalization_from tp n) /\
-  (forall (d : list (T O)) mk (m : list (T O)), g_residual_map_with_mask_from d mk m = residual_map_with_mask_from d mk m) /\
-  (forall (r n : list (T O)) mk,
-     g_normalized_residual_map_with_mask_from r n mk = normalized_residual_map_with_mask_from r n mk) /\
-  (forall (r n : list (T O)) mk, g_chi_squared_map_with_mask_from r n mk = chi_squared_map_with_mask_from r n mk) /\
-  (forall (cm : list (T O)) mk, g_chi_squared_with_mask_from cm mk = chi_squared_with_mask_from cm mk) /\
-  (forall (d : list (T O)) mk (m n : list (T O)),
-     g_chi_squared_with_mask_fast_from d mk m n = chi_squared_with_mask_fast_from d mk m n) /\
-  (forall (n : list (T O)) mk, g_noise_normalization_with_mask_from np_pi n mk = noise_normalization_with_mask_from tp n mk) /\
-  (forall chi nn : T O, g_log_likelihood_from chi nn = log_likelihood_from chi nn) /\
-  (forall chi reg nn : T O,
-     g_log_likelihood_with_regularization_from chi reg nn = log_likelihood_with_regularization_from chi reg nn) /\
-  (forall chi reg ldc ldr nn : T O, g_log_evidence_from chi reg ldc ldr nn = log_evidence_from chi reg ldc ldr nn).
-Proof. exact @generated_fit_util_is_model. Qed.
+(* ---- tie to the code: the three composition formulas are GENERATED from fit_util.py; over the reals they are
+        the model's composition layer and the formulas of the property text *)
+Theorem C08_generated_composition_is_model : forall (lnf : R -> R) (chi reg ldc ldr nn : R),
+  @g_log_likelihood_from (RL lnf) chi nn = @log_likelihood_from (RL lnf) chi nn /\
+  @g_log_likelihood_with_regularization_from (RL lnf) chi reg nn = @log_likelihood_with_regularization_from (RL lnf) chi reg nn /\
+  @g_log_evidence_from (RL lnf) chi reg ldc ldr nn = @log_evidence_from (RL lnf) chi reg ldc ldr nn.
+Proof. exact generated_composition_is_model. Qed.
 (* the generated composition formulas of fit_util.py, over the reals *)
 Theorem C08_generated_composition_formulas : forall (lnf : R -> R) (chi reg ldc ldr nn : R),
   @g_log_likelihood_from (RL lnf) chi nn = (- ((chi + nn) / 2))%R /\
@@ -180,7 +165,7 @@ Example C08_example_values :
   @fit_residual_map QOps (ex_fit QOps (99#1)%Q (0#1)%Q (1000#1)%Q) = [1#1; 0#1; (-3)#1; 4#1]%Q.
 Proof. vm_compute. repeat split. Qed.
 
-Print Assumptions C08_generated_fit_util_is_model. Print Assumptions C08_generated_composition_formulas.
+Print Assumptions C08_generated_composition_is_model. Print Assumptions C08_generated_composition_formulas.
 Print Assumptions C08_masked_values_irrelevant. Print Assumptions C08_slim_and_native_modes_agree.
 Print Assumptions C08_maps_follow_definitions. Print Assumptions C08_statistics_follow_definitions.
 Print Assumptions C08_residual_flux_fraction_definition. Print Assumptions C08_signal_to_noise_definition.
